@@ -2,6 +2,8 @@
 
 Shared by C04 (purity: the isotherm passed in is unchanged) and C15 (unit independence: the kernel receives equal
 arguments whatever representation the isotherm is stored in)."""
+import functools
+
 import numpy
 
 from . import stubs, symx, isofix
@@ -109,6 +111,11 @@ def flatten(x, out=None):
         flatten(numpy.asarray(x.values, dtype=object), out)
     elif hasattr(x, 'pressure_mode') and hasattr(x, 'material'):
         out.append(('isotherm', type(x).__name__))
+    elif isinstance(x, functools.partial):
+        # a model closure (e.g. the Kelvin model with the condensate properties bound): its bound arguments are arguments too
+        out.append(('partial', getattr(x.func, '__name__', type(x.func).__name__)))
+        flatten(list(x.args), out)
+        flatten(dict(x.keywords), out)
     elif callable(x) and not symx.is_sym(x):
         out.append(('callable', getattr(x, '__name__', getattr(getattr(x, 'func', None), '__name__', type(x).__name__))))
     else:
